@@ -656,6 +656,35 @@ pub fn run(ctx: &mut Ctx) {
         ctx.shape(&("format-flags", idx / 16));
     });
 
+    // ------------------------------------------------ key_bits is a function of the value alone: after a call on each sized curve,
+    // every u16 is queried three times in a row (and once more after another curve): all answers equal the table
+    ctx.floor("key_bits.history", 65536 * 4);
+    ctx.sweep("key_bits-call-history", 64, |ctx, idx| {
+        let sized: Vec<u16> = iana::KEY_BITS.iter().map(|e| e.0).collect();
+        let start = idx as u32 * 1024;
+        for v in start..start + 1024 {
+            let x = v as u16;
+            let a = sized[(v as usize) % sized.len()];
+            let alone = NamedGroup(x).key_bits();
+            let _ = NamedGroup(a).key_bits();
+            let r1 = NamedGroup(x).key_bits();
+            let r2 = NamedGroup(x).key_bits();
+            let r3 = NamedGroup(x).key_bits();
+            let _ = NamedGroup(sized[(v as usize + 7) % sized.len()]).key_bits();
+            let r4 = NamedGroup(x).key_bits();
+            ctx.evals(4);
+            ctx.add("key_bits.history", 4);
+            if !(r1 == alone && r2 == alone && r3 == alone && r4 == alone) {
+                ctx.violation(
+                    "c17:key_bits:depends-on-call-history".into(),
+                    json!({"group": x, "queried_before": a, "first_answer": format!("{:?}", alone), "answers_after": format!("{:?}", [r1, r2, r3, r4])}),
+                );
+                return;
+            }
+        }
+        ctx.shape(&("key_bits-history", idx));
+    });
+
     // ------------------------------------------------ key_bits for every u16
     ctx.sweep("key_bits", (65536 / CHUNK) as u64, |ctx, idx| {
         let start = idx as u32 * CHUNK;
